@@ -1,8 +1,99 @@
 import Req.Driver.Proto
-/-! Driver lanes of C18. -/
+import Req.Client.Result
+/-! Driver lanes of C18 (classification and binding; the pipeline lane is in `C18Pipe`). -/
 namespace Req.Driver.L.C18
-open Req.Proto
+open Req.Proto Req.Result
 
-def lanes : List (String × (List String → String)) := []
+def parseBool : String → Option Bool
+  | "0" => some false
+  | "1" => some true
+  | _ => none
+
+def parseState : String → Option (Option ResultState)
+  | "-" => some none
+  | "S" => some (some .success)
+  | "E" => some (some .error)
+  | "U" => some (some .unknown)
+  | _ => none
+
+def showState : ResultState → String
+  | .success => "S"
+  | .error => "E"
+  | .unknown => "U"
+
+def showBool (b : Bool) : String := if b then "1" else "0"
+
+def parseErr (s : String) : Option (Option Err) :=
+  if s == "-" then some none
+  else if s == "unm" then some (some .unmarshal)
+  else if s == "read" then some (some .read)
+  else if s == "getbody" then some (some .getBody)
+  else if s == "builtin" then some (some .builtin)
+  else if s == "builder" then some (some .builder)
+  else if s == "unreplay" then some (some .unreplayable)
+  else if s == "digest" then some (some .digest)
+  else if s.startsWith "s" then (s.drop 1).toNat?.map fun n => some (.stage n)
+  else none
+
+def showErr : Option Err → String
+  | none => "-"
+  | some (.stage n) => "s" ++ toString n
+  | some .unmarshal => "unm"
+  | some .read => "read"
+  | some .getBody => "getbody"
+  | some .builtin => "builtin"
+  | some .builder => "builder"
+  | some .unreplayable => "unreplay"
+  | some .digest => "digest"
+
+def showCodec : Option Codec → String
+  | none => "-"
+  | some .json => "json"
+  | some .xml => "xml"
+
+def showSlotErr : Option Target → String
+  | none => "-"
+  | some .errorReq => "R"
+  | some .errorCommon => "C"
+  | some .success => "?"
+
+/-- `c18classify <hasHttp> <custom> <status>` → `<state> <isSuccessState> <isErrorState> <autoReadGuard>` -/
+def laneClassify : List String → String
+  | [hh, cu, st] =>
+    match parseBool hh, parseState cu, decodeInt st with
+    | some hh, some cu, some st =>
+      showState (classify hh cu st) ++ " " ++ showBool (isSuccessState hh cu st) ++ " " ++
+        showBool (isErrorState hh cu st) ++ " " ++ showBool (autoReadStatus st)
+    | _, _, _ => "bad-op"
+  | _ => "bad-op"
+
+/-- `c18ct <content-type hex>` → `json|xml` -/
+def laneCt : List String → String
+  | [ct] =>
+    match decodeHex ct with
+    | some ct => showCodec (some (codecFor ct))
+    | none => "bad-op"
+  | _ => "bad-op"
+
+/-- `c18bind <hasHttp> <status> <custom> <succTarget> <errTarget> <commonErr> <respErr> <cached>
+<readOK> <ct> <jsonOK> <xmlOK>` → `res=… err=… ret=… respErr=… cached=… codec=…` -/
+def laneBind : List String → String
+  | [hh, st, cu, sT, eT, cE, re, ca, rd, ct, jo, xo] =>
+    match parseBool hh, decodeInt st, parseState cu, parseBool sT, parseBool eT, parseBool cE,
+          parseErr re, parseBool ca, parseBool rd, decodeHex ct, parseBool jo, parseBool xo with
+    | some hh, some st, some cu, some sT, some eT, some cE, some re, some ca, some rd, some ct, some jo, some xo =>
+      let h : Http := { status := st, ct := ct, custom := cu, readOK := rd, jsonOK := jo, xmlOK := xo }
+      let o := parseBody { http := if hh then some h else none, successTarget := sT, errorTarget := eT,
+                           commonErr := cE, respErr := re, bodyCached := ca, slots := {} }
+      "res=" ++ showBool o.slots.result ++ " err=" ++ showSlotErr o.slots.error ++ " ret=" ++ showErr o.err ++
+        " respErr=" ++ showErr o.respErr ++ " cached=" ++ showBool o.bodyCached ++ " codec=" ++ showCodec o.codec
+    | _, _, _, _, _, _, _, _, _, _, _, _ => "bad-op"
+  | _ => "bad-op"
+
+def lanes : List (String × (List String → String)) := [
+  ("c18classify", laneClassify),
+  ("c18ct", laneCt),
+  ("c18bind", laneBind)
+]
 
 end Req.Driver.L.C18
